@@ -101,7 +101,10 @@ Qed.
 
 Theorem nested_copy_eq a force : @NestedTermList_copy D a force = nested_copy O a force.
 Proof.
-  unfold NestedTermList_copy, nested_copy. rewrite mbind_ret_r. apply nested_init_eq.
+  unfold NestedTermList_copy, nested_copy. cbv zeta.
+  (* the copies are built by a comprehension (a map) or by an explicit loop with append: both are the map *)
+  try (rewrite (loop_m_map (fun tl => tl_copy tl)) by (intros; reflexivity); cbn [bind ret app]).
+  rewrite mbind_ret_r. apply nested_init_eq.
 Qed.
 
 (* ------------------------------------------------------------------ *)
